@@ -61,6 +61,12 @@ func (r *Result) Absorb(out simrt.Outcome) {
 	if r.V != nil {
 		return
 	}
+	d := KeptReadChanged()
+	kept = kept[:0]
+	if d != "" && out.Panic == "" {
+		r.V = &Violation{Kind: "returned-value-changed", Signature: "returned-value-changed-later", Detail: d}
+		return
+	}
 	switch {
 	case out.Panic != "":
 		r.V = &Violation{Kind: "panic", Signature: "panic:" + panicSite(out.Panic), Detail: out.Panic}
